@@ -2,7 +2,7 @@
 	do {                                      \
 		g_k = nondet_size_t(); g_j = nondet_size_t(); g_b = nondet_u8(); g_n = nondet_size_t(); \
 		g_hk = nondet_size_t(); g_u32 = nondet_u32(); g_hb = nondet_u8(); g_p = nondet_ptr(); \
-		g_sock = nondet_ptr(); g_c1 = nondet_ptr(); g_c2 = nondet_ptr(); g_p1 = nondet_ptr(); g_p2 = nondet_ptr(); g_pp3 = nondet_ptr(); g_aio2 = nondet_ptr(); \
+		g_sock = nondet_ptr(); g_c1 = nondet_ptr(); g_c2 = nondet_ptr(); g_p1 = nondet_ptr(); g_p2 = nondet_ptr(); g_pp3 = nondet_ptr(); g_aio1 = nondet_ptr(); g_aio2 = nondet_ptr(); g_aio3 = nondet_ptr(); g_fin_prev = nondet_ptr(); g_fin_prev_rv = nondet_int(); g_fin_prev_msg = nondet_ptr(); \
 		g_own1 = nondet_bool(); g_own2 = nondet_bool(); g_copyin_ok = nondet_bool(); g_copyin_val = nondet_int(); \
 		g_free_calls = nondet_size_t(); g_alloc_ok = nondet_size_t(); \
 		__CPROVER_assume(g_free_calls < ((size_t) 1 << 40) && g_alloc_ok < ((size_t) 1 << 40)); \
@@ -205,5 +205,91 @@ void h_req0_pipe_close(void)
 	c2->req_retry = PC_RV2;
 #endif
 	req0_pipe_close(p);
+	VP_CANARY();
+}
+
+/* ---- one context in a state of the request state machine (X_ST etc., see contracts.h) ---- */
+static nni_aio vp_aio_a, vp_aio_b, vp_aio_c;
+static req0_ctx *vp_ctx_state(req0_sock *s)
+{
+	req0_ctx *c = vp_mk_ctx(s, REQ_CM);
+	g_c1 = c;
+	__CPROVER_havoc_object(&vp_aio_a); __CPROVER_havoc_object(&vp_aio_b); __CPROVER_havoc_object(&vp_aio_c);
+	g_aio1 = &vp_aio_a; g_aio2 = &vp_aio_b; g_aio3 = &vp_aio_c;
+	c->recv_aio = (X_RA == 0) ? NULL : (X_RA == 1) ? &vp_aio_a : &vp_aio_c;
+	c->send_aio = (X_ST != 1) ? NULL : (X_SA == 1) ? &vp_aio_a : &vp_aio_b;
+#if X_ST == 0 || X_ST == 3
+	c->req_msg = NULL; c->request_id = 0;
+#endif
+#if X_ST == 1
+	c->req_msg = &vp_msg_a;
+#endif
+#if X_ST == 1 || X_ST == 2
+	c->rep_msg = NULL;
+#endif
+#if X_ON_RETRY
+	vp_list_add(&s->retry_queue, &c->retry_node);
+#endif
+#if X_ON_SENDQ
+	vp_list_add(&s->send_queue, &c->send_node);
+#endif
+#if X_ON_PIPE
+	req0_pipe *p3 = vp_mk_pipe(s); g_pp3 = p3; vp_list_add(&p3->contexts, &c->pipe_node);
+#endif
+	return (c);
+}
+void h_req0_ctx_cancel_recv(void)
+{
+	nng_err rv;
+	VP_HAVOC_GHOSTS();
+	req0_sock *s = vp_mk_sock();
+	req0_ctx *c = vp_ctx_state(s);
+	req0_ctx_cancel_recv(&vp_aio_a, c, rv);
+	VP_CANARY();
+}
+void h_req0_ctx_cancel_send(void)
+{
+	nng_err rv;
+	VP_HAVOC_GHOSTS();
+	req0_sock *s = vp_mk_sock();
+	req0_ctx *c = vp_ctx_state(s);
+	req0_ctx_cancel_send(&vp_aio_a, c, rv);
+	VP_CANARY();
+}
+
+void h_req0_retry_cb(void)
+{
+	VP_HAVOC_GHOSTS();
+	req0_sock *s = vp_mk_sock();
+#if RT_N >= 1
+	req0_ctx *c1 = vp_mk_ctx(s, 0); g_c1 = c1; vp_list_add(&s->retry_queue, &c1->retry_node);
+	c1->send_aio = NULL;
+	req0_pipe *p3 = vp_mk_pipe(s); g_pp3 = p3; vp_list_add(&s->busy_pipes, &p3->node); vp_list_add(&p3->contexts, &c1->pipe_node);
+#if RT_Q1 == 1
+	vp_list_add(&s->send_queue, &c1->send_node);
+#endif
+#if RT_DUE1 == 1
+	c1->req_msg = &vp_msg_a; c1->retry_time = g_now;
+#elif RT_DUE1 == 0
+	c1->req_msg = nondet_bool() ? &vp_msg_a : NULL; c1->retry_time = g_now + 1;
+#else
+	c1->req_msg = nondet_bool() ? &vp_msg_a : NULL;
+#endif
+#endif
+#if RT_N == 2
+	req0_ctx *c2 = vp_mk_ctx(s, 0); g_c2 = c2; vp_list_add(&s->retry_queue, &c2->retry_node);
+	c2->send_aio = NULL;
+#if RT_DUE2 == 1
+	c2->req_msg = &vp_msg_b; c2->retry_time = g_now;
+#elif RT_DUE2 == 0
+	c2->req_msg = nondet_bool() ? &vp_msg_b : NULL; c2->retry_time = g_now + 1;
+#else
+	c2->req_msg = nondet_bool() ? &vp_msg_b : NULL;
+#endif
+#endif
+#if RT_RP == 1
+	req0_pipe *p1 = vp_mk_pipe(s); g_p1 = p1; vp_list_add(&s->ready_pipes, &p1->node);
+#endif
+	req0_retry_cb(s);
 	VP_CANARY();
 }
